@@ -52,11 +52,16 @@ def src_files(root):
     return out
 
 
-def hints():
+def hints(pid=None):
     import difflib
     nums, strs = set(), set()
     old, new = src_files(COPY), src_files(os.path.join(REPO, "src"))
+    only = None
+    if pid:   # only the files the property is anchored in (a literal in an unrelated file is noise for this property)
+        only = {os.path.relpath(f, os.path.join(REPO, "src")) for f in files_of(pid) if f.startswith(os.path.join(REPO, "src"))}
     for rel in sorted(set(old) | set(new)):
+        if only is not None and rel not in only:
+            continue
         a = open(old[rel], errors="replace").read().split("\n") if rel in old else []
         b = open(new[rel], errors="replace").read().split("\n") if rel in new else []
         if a == b:
@@ -104,7 +109,8 @@ if __name__ == "__main__":
             shutil.copyfile(full, os.path.join(COPY, rel))
         print("baseline updated")
     elif "--hints" in sys.argv:
-        print(json.dumps(hints()))
+        rest = [a for a in sys.argv[1:] if not a.startswith("--")]
+        print(json.dumps(hints(rest[0] if rest else None)))
     else:
         pid = sys.argv[1]
         base = json.load(open(BASE)).get(pid, {}) if os.path.exists(BASE) else {}
